@@ -84,9 +84,12 @@ def run(tier, replay):
             keep = [r for r in rows if r["case"].get("m") == c["m"]]
             rows = keep or rows
     else:
-        for i, f in enumerate(sorted(glob.glob(os.path.join(vlib.VERIF, "corpus", PROP, "*.json")))):
-            pass  # corpus entries document findings; the run below covers every method at every state
         rows += run_harness(binp, wd, "gen.jsonl", [] if tier == "quick" else ["--rounds", "6"])
+        # corpus: witness calls that every run must contain
+        for f in sorted(glob.glob(os.path.join(vlib.VERIF, "corpus", PROP, "*.json"))):
+            for w in json.load(open(f)).get("cases", []):
+                if not any(all(r["case"].get(k) == v for k, v in w.items()) for r in rows):
+                    raise vlib.Infra("corpus case %s of %s is no longer exercised by the harness" % (json.dumps(w), f))
 
     cmp_rows = [r for r in rows if not r["case"].get("twin")]
     terms = [case_term(r["case"]) for r in cmp_rows]
